@@ -158,7 +158,7 @@ pub fn c01_value_pub(ops: &TypeOps, case: &Case, rep: &mut Report) {
 
 pub fn c01(ctx: &Ctx) {
 	let mut rep = Report::new("C01");
-	let n = ctx.budget(1500, 60_000);
+	let n = ctx.budget(10_000, 300_000);
 	for ops in ctx.my_types() {
 		let mut rng = ctx.rng_for(ops.name);
 		note_types(&mut rep, ops);
@@ -170,7 +170,7 @@ pub fn c01(ctx: &Ctx) {
 	}
 	if ctx.shard == 0 {
 		let mut rng = ctx.rng_for("borrowed");
-		c01_borrowed(&mut rng, ctx.budget(300, 6000), &mut rep);
+		c01_borrowed(&mut rng, ctx.budget(1500, 30_000), &mut rep);
 	}
 	if ctx.shard == 1 % ctx.nshards && ctx.tier == Tier::Thorough && !ctx.is_slow() {
 		c01_limits(&mut rep);
@@ -258,7 +258,7 @@ pub fn c02_value(ops: &TypeOps, case: &Case, suffix: &[u8], rep: &mut Report, pr
 
 pub fn c02(ctx: &Ctx) {
 	let mut rep = Report::new("C02");
-	let n = ctx.budget(1200, 50_000);
+	let n = ctx.budget(6000, 150_000);
 	for ops in ctx.my_types() {
 		if ops.dec.is_none() {
 			continue;
@@ -496,7 +496,7 @@ fn c03_exhaustive(ctx: &Ctx, rep: &mut Report) {
 
 pub fn c03(ctx: &Ctx) {
 	let mut rep = Report::new("C03");
-	let n_vals = ctx.budget(250, 8_000);
+	let n_vals = ctx.budget(1500, 30_000);
 	for ops in ctx.my_types() {
 		if ops.dec.is_none() {
 			continue;
